@@ -366,6 +366,9 @@ func New(clients []*ClientReg, signing *SignKey) *Store {
 
 var ErrInjected = errors.New("injected storage failure")
 
+// ErrInjectedOIDC is a sentinel *oidc.Error shared by all injected failures of kind "oidc".
+var ErrInjectedOIDC = oidc.ErrServerError().WithDescription("injected storage failure (shared oidc.Error)")
+
 type notFound struct{ what string }
 
 func (n notFound) Error() string { return n.what + " not found" }
@@ -381,6 +384,9 @@ func (s *Store) enter(ctx context.Context, method string, args ...string) error 
 	if (s.FailAt != 0 && s.calls == s.FailAt) || (s.FailMethod != "" && s.FailMethod == method) {
 		if s.FailKind == "deadline" {
 			err = context.DeadlineExceeded
+		} else if s.FailKind == "oidc" {
+			// a storage that answers every outage with one and the same *oidc.Error value
+			err = ErrInjectedOIDC
 		} else {
 			err = ErrInjected
 		}
@@ -404,6 +410,13 @@ func (s *Store) ResetJournal() {
 	defer s.mu.Unlock()
 	s.Journal = nil
 	s.calls = 0
+}
+
+// CallCount is the number of storage calls journalled since the last reset.
+func (s *Store) CallCount() int {
+	s.mu.Lock()
+	defer s.mu.Unlock()
+	return len(s.Journal)
 }
 
 func (s *Store) TakeJournal() []JournalEntry {
